@@ -36,7 +36,9 @@ def submitted_script(sb, backend, args=("run",)):
     sb.new_calls()
     r = sb.gwf(["-b", backend] + list(args))
     calls = sb.new_calls()
-    script = next((c["stdin"] for c in calls if c["cmd"] == SUBMIT[backend]), None)
+    scripts = [c["stdin"] for c in calls if c["cmd"] == SUBMIT[backend]]
+    # the script of target 't' (the last one submitted when there are several)
+    script = next((s for s in reversed(scripts) if s and re.search(r"(job-name=|-N |-J )t\b", s)), scripts[-1] if scripts else None)
     return r, script
 
 
@@ -52,7 +54,11 @@ def drive_option(item):
     topt = "{}" if scn["tmpl"] == "absent" else "{%r: %r}" % (name, pyval(scn["tmpl"], table))
     lines = ["from gwf import Workflow, AnonymousTarget", "gwf = Workflow(%s)" % wf_kw,
              "def tmpl(x):", "    return AnonymousTarget(inputs=[], outputs=['o_' + x], options=%s, spec='echo hi')" % topt]
-    if scn["mode"] == "target":
+    if scn["mode"] == "after_plain":
+        # 'a_plain' sorts before 't' and is submitted first; it has no options whatsoever
+        lines.append("gwf.target('a_plain', inputs=[], outputs=['o0']) << 'echo plain'")
+        lines.append("gwf.target('t', inputs=[], outputs=['o']%s) << 'echo hi'" % arg_kw)
+    elif scn["mode"] == "target":
         lines.append("gwf.target('t', inputs=[], outputs=['o']%s) << 'echo hi'" % arg_kw)
     elif scn["mode"] == "template":
         lines.append("gwf.target_from_template('t', tmpl('a')%s)" % arg_kw)
